@@ -146,7 +146,10 @@ def logged_is_applied(ctx, r):
         appends = [s for s in b.calls() if prog.local_target(s) is not None and
                    "WAL_WRITE" in sem_set(e for e in ctx.may.site_events(s) if ctx._concrete(e)) and
                    "INDEX_MUTATE" not in sem_set(ctx.may.site_events(s))]
-        applies = [s for s in b.calls() if prog.local_target(s) is not None and prog.local_target(s).path in roles]
+        # the apply step: a call that changes the key map and writes no log (whatever functions it is split into)
+        applies = [s for s in b.calls() if prog.local_target(s) is not None and
+                   "INDEX_MUTATE" in sem_set(ctx.may.site_events(s)) and
+                   "WAL_WRITE" not in sem_set(e for e in ctx.may.site_events(s) if ctx._concrete(e))]
         if not appends or not applies:
             continue
         sl = Slicer(ctx.world, b)
@@ -224,6 +227,10 @@ def snapshot_version(ctx, r, loaders):
         sl = Slicer(ctx.world, b)
         # (the version may be handed to a private helper that stores it: trace parameters up to the callers)
         written = sl.leaves_up(w.rv["op"], depth=4) if w.rv["k"] == "use" else set()
+        # ... and a value computed by a planning helper is traced into that helper
+        from ..prov import expand_down
+        written = expand_down(ctx.world, b, written, depth=3, stop=tuple(
+            p_ for p_, bd in prog.bodies.items() if bd.argc >= 1 and prog.adt_of(bd.locals[1])[0] == A.get("WALMGR")))
         wal_calls = [l for l in written if l[0] == "call"]
         walmgr = A.get("WALMGR")
         from_wal = False
@@ -250,33 +257,60 @@ def snapshot_version(ctx, r, loaders):
             pl = set()
             for a in s.term["args"][1:]:
                 pl |= sl.leaves_up(a, depth=4)
+            pl = expand_down(ctx.world, b, pl, depth=3, stop=tuple(
+                p_ for p_, bd in prog.bodies.items() if bd.argc >= 1 and prog.adt_of(bd.locals[1])[0] == A.get("WALMGR")))
             r.check(bool(written & pl), "prune-version", b,
                     "the prune step at %s is given the version that was just saved" % site_where(s),
                     "the prune step at %s is given %s, not the version just saved (%s)" % (
                         site_where(s), sorted(fmt_leaf(x) for x in pl), sorted(fmt_leaf(x) for x in written)),
                     site_where(s))
-    # (c) load: replay starts from the version of the state returned by the loader
+    # (c) load: replay starts from the version of the state returned by the loader (the two calls may sit in helpers of
+    # the load function: judged on the smallest flat view that contains both)
+    cb_paths = set(cb.path for cb in replay_callbacks(ctx))
+
+    def is_replay_call(s):
+        tg = prog.local_target(s)
+        if tg is None:
+            return False
+        return any(p_ in cb_paths for p_ in prog.reachable_bodies([tg]))
+    reachers = tuple(sorted(p_ for p_, bd in prog.bodies.items()
+                            if any(q in cb_paths for q in prog.reachable_bodies([bd])) and p_ not in cb_paths))
     for lb in loaders:
         for (csite, how) in prog.callers_index().get(lb.path, []):
-            b = csite.body
+            # helpers are inlined, except the loader and whatever leads to the replay callback: the outermost such
+            # call is "the replay call"
+            V = ctx.view_containing(csite.body, lambda v: any(is_replay_call(s) for s in v.calls()) and
+                                    bool(ctx.flat_sites_of(v, csite)), stop=(lb.path,) + reachers)
+            if V is None:
+                r.bad("replay-from-snapshot-version", csite.body,
+                      "cannot find the replay call that follows the snapshot load at %s" % site_where(csite), site_where(csite))
+                continue
+            b = V
             sl = Slicer(ctx.world, b)
+            lsites = set(s.bb for s in ctx.flat_sites_of(V, csite))
             for s in b.calls():
-                evs = ctx.may.site_events(s)
-                # the replay call: may invoke the replay callback
-                tg = prog.local_target(s)
-                if tg is None:
+                if not is_replay_call(s) or s.bb in lsites:
                     continue
-                reach = prog.reachable_bodies([tg])
-                if not any(cb.path in reach for cb in replay_callbacks(ctx)):
-                    continue
+                # the outermost replay call only (its callees were either inlined or are reached through it)
                 ok = False
                 seen = set()
                 for a in s.term["args"]:
                     for l in sl.leaves_of_operand(a):
                         seen.add(fmt_leaf(l))
-                        if l[0] == "call" and l[2] == csite.bb and l[-1] and l[-1][-1] == sv[2]:
+                        if l[0] == "call" and l[2] in lsites and l[-1] and l[-1][-1] == sv[2]:
                             ok = True
-                r.check(ok, "replay-from-snapshot-version", b,
+                if not ok and any(l_ for l_ in seen) and not any(
+                        "%s" % sv[2] in x for x in seen):
+                    # an inner call of an already judged replay chain (does not take the version at all)
+                    takes_version = False
+                    for a in s.term["args"]:
+                        pl_ = place_of(a)
+                        if pl_ is not None and "NonZero" in prog.ty_str(ctx.world._place_ty(b, pl_)):
+                            takes_version = True
+                    if not takes_version:
+                        continue
+                kb = b.origin_body(s.bb) if getattr(b, "is_flat", False) else b
+                r.check(ok, "replay-from-snapshot-version", kb,
                         "replay at %s starts from the version of the snapshot just loaded" % site_where(s),
                         "replay at %s is not given the version of the loaded snapshot (args: %s)" % (
                             site_where(s), sorted(seen)), site_where(s))
